@@ -1,13 +1,30 @@
 #!/venv/bin/python
 """re-run the current quick checks against every kept seeded change (no test suite); writes seeded/REGRESSION.json and prints a table.
-usage: seeded_regress.py [ID-prefix ...]"""
+usage: seeded_regress.py [ID-prefix ...] [--shard i/n] [--merge]
+  --shard i/n : only every n-th change (offset i), rows go to seeded/.regress-i-of-n.jsonl (demos are skipped: they were confirmed when the change was kept)
+  --merge     : collect the shard files into seeded/REGRESSION.json"""
 import json, os, subprocess, sys, glob
 here = os.path.dirname(os.path.dirname(os.path.abspath(__file__)))
-sel = sys.argv[1:]
+args = sys.argv[1:]
+shard = None
+if "--merge" in args:
+    rows = []
+    for f in sorted(glob.glob(os.path.join(here, "seeded", ".regress-*.jsonl"))):
+        rows += [json.loads(l) for l in open(f) if l.strip()]
+    rows.sort(key=lambda r: (r["seeded"].split("-")[0], int(r["seeded"].split("-")[1])))
+    json.dump(rows, open(os.path.join(here, "seeded", "REGRESSION.json"), "w"), indent=1)
+    print(len(rows), "rows; not caught by own check:", [r["seeded"] for r in rows if r.get("exit") != 1])
+    sys.exit(0)
+if "--shard" in args:
+    k = args.index("--shard"); shard = tuple(int(x) for x in args[k + 1].split("/")); del args[k:k + 2]
+    os.environ["SEEDED_SKIP_DEMO"] = "1"
+sel = args
 rows = []
+_all = sorted(glob.glob(os.path.join(here, "seeded", "C*-*")))
+_mine = set(_all[shard[0]::shard[1]]) if shard else set(_all)
 for d in sorted(glob.glob(os.path.join(here, "seeded", "C*-*"))):
     name = os.path.basename(d)
-    if sel and not any(name.startswith(x) for x in sel):
+    if (sel and not any(name.startswith(x) for x in sel)) or d not in _mine:
         continue
     prop = name.split("-")[0]
     p = subprocess.run([os.path.join(here, "tools", "seeded_eval.py"), d, prop], capture_output=True, text=True)
@@ -19,8 +36,10 @@ for d in sorted(glob.glob(os.path.join(here, "seeded", "C*-*"))):
         row = {"seeded": name, "error": str(e), "stderr": p.stderr[-300:]}
     rows.append(row)
     print(json.dumps(row), flush=True)
+    if shard:
+        open(os.path.join(here, "seeded", f".regress-{shard[0]}-of-{shard[1]}.jsonl"), "a").write(json.dumps(row) + "\n")
 out = os.path.join(here, "seeded", "REGRESSION.json")
-if not sel:
+if not sel and not shard:
     json.dump(rows, open(out, "w"), indent=1)
 missed = [r["seeded"] for r in rows if r.get("exit") != 1]
 print("MISSED:", missed)
